@@ -399,7 +399,7 @@ func checkC07Unknown(c *Ctx, n int) {
 	p.OnlyTypes = []string{"str", "str", "bool", "bool", "bool", "int"}
 	p.OptsMask = flags.PrintErrors
 	r := c.Rng
-	policies := []string{"fail", "ignore", "identity", "dropnext", "prepend", "refuse"}
+	policies := []string{"fail", "ignore", "identity", "dropnext", "prepend", "refuse", "swallow"}
 	for i := 0; i < n; i++ {
 		policy := policies[r.Intn(len(policies))]
 		// (IgnoreUnknown together with PassAfterNonOption: the ignored option is no "non-option")
@@ -427,6 +427,8 @@ func checkC07Unknown(c *Ctx, n int) {
 				cs.Handler, cs.HandlerTok = "prepend", "hw"
 			case "refuse":
 				cs.Handler = "fail"
+			case "swallow":
+				cs.Handler = "swallow"
 			}
 		})
 		if lc == nil {
@@ -522,6 +524,25 @@ func checkC07Unknown(c *Ctx, n int) {
 		var warm []string
 		cs.Ops, warm = withWarmup(c, lc.real, argv)
 		cs.Description = describeOps(cs)
+		// a handler that returns a nil slice: the outcome must be that of the command line cut off behind
+		// the unknown option — the reference is the same parser given exactly that line
+		var cut *parseObs
+		if policy == "swallow" {
+			cs2 := *cs
+			cs2.Ops = append([]Op{}, cs.Ops...)
+			cutArgv := argv[:len(argv)-len(post)]
+			cs2.Ops[len(cs2.Ops)-1] = Op{Kind: "parse", Args: cutArgv}
+			cs2.Description = describeOps(&cs2)
+			c.RunCases([]*Case{&cs2}, func(cr *CaseResult) {
+				for _, o := range parseBlocks(cr) {
+					o := o
+					cut = &o
+				}
+			})
+			if cut == nil {
+				continue
+			}
+		}
 		c.RunCases([]*Case{cs}, func(cr *CaseResult) {
 			c.classifyCase(cr)
 			if cr.Real == nil || cr.Real.dead {
@@ -614,6 +635,15 @@ func checkC07Unknown(c *Ctx, n int) {
 				}
 				if !ok || obs.errKind != "ok" || (fmt.Sprintf("%q", obs.ret) != fmt.Sprintf("%q", wantRet) && !(len(obs.ret) == 0 && len(wantRet) == 0)) {
 					fail(got+fmt.Sprintf(" %q", calls), want+fmt.Sprintf(", then success with remaining %q", wantRet))
+					return
+				}
+			case "swallow":
+				ok, want := callOK()
+				same := obs.errKind == cut.errKind && obs.errType == cut.errType && fmt.Sprintf("%q", obs.ret) == fmt.Sprintf("%q", cut.ret) &&
+					strings.Join(obs.values, "\n") == strings.Join(cut.values, "\n") && obs.act == cut.act
+				if !ok || !same {
+					in["the_line_cut_off_behind_the_unknown_option_gives"] = fmt.Sprintf("%s type %d %q remaining %q", cut.errKind, cut.errType, cut.errMsg, cut.ret)
+					fail(got+fmt.Sprintf(" %q", calls), want+"; the handler returns nil, so nothing behind the option is parsed: outcome, option values and remaining arguments of the line that ends at the unknown option")
 					return
 				}
 			case "refuse":
@@ -747,6 +777,110 @@ func checkC08Words(c *Ctx, n int) {
 				return
 			}
 			c.Check("command-words-select-the-chain-and-other-words-are-judged-by-the-active-command", true, "", nil, "", "")
+		})
+	}
+}
+
+// ------------------------------------------------------------------------------------ C08, late declarations
+
+// checkC08Late: a parser that has already been used (a call that walked down some command path) is
+// given a further option group on one of the commands of that path and a further subcommand below its
+// end; a later call must accept the new option from the end of the path onwards (ancestors' options stay
+// in scope) and the new command word by name or alias.  The expected outcome is stated from the
+// construction alone.
+func checkC08Late(c *Ctx, n int) {
+	p := defaultProfile
+	p.BadDecl, p.Defaults, p.Env, p.InitVals, p.Choices, p.Required, p.PosArgs = 0, 0, 0, 0, 0, 0, 0
+	p.SubOpt = 0.5
+	p.MaxCmdDepth, p.MaxSubs, p.MaxFields = 3, 3, 3
+	p.Handlers, p.Exec = false, false
+	p.OnlyTypes = []string{"str", "bool", "bool"}
+	p.OptsMask = flags.PrintErrors
+	r := c.Rng
+	for i := 0; i < n; i++ {
+		var lc *lineCtx
+		for try := 0; try < 12; try++ {
+			lc = newLine(c, p, 6, func(cs *Case) {
+				cs.Opts &^= flags.PassDoubleDash | flags.PassAfterNonOption | flags.IgnoreUnknown | flags.HelpFlag
+			})
+			if lc != nil && (i%3 == 0 || len(lc.chain) > 2) {
+				break
+			}
+		}
+		if lc == nil || lc.declared["--late-flag"] || lc.declared["-9"] || lc.isCommandWord("latecmd") || lc.isCommandWord("lc9") {
+			continue
+		}
+		// where the option is added: any command of the path; the command: below the end of the path
+		k := r.Intn(len(lc.chain))
+		holder, end := lc.chain[k], lc.active()
+		lateGroup := &StructDesc{Fields: []FieldDesc{{Name: "LateFlag", Exported: true, Kind: "v", Ty: "bool", Tag: `long:"late-flag" short:"9"`}}}
+		lateCmd := &StructDesc{Fields: []FieldDesc{{Name: "LateInner", Exported: true, Kind: "v", Ty: "bool", Tag: `long:"late-inner"`}}}
+		addOpt := Op{Kind: "build", B: &BuildOp{Kind: "addgroup", Target: lc.real.uids[holder], Short: "Late Options", Struct: lateGroup}}
+		addCmd := Op{Kind: "build", B: &BuildOp{Kind: "addcommand", Target: lc.real.uids[end], Name: "latecmd", Short: "added late", Struct: lateCmd}}
+		setAlias := Op{Kind: "build", B: &BuildOp{Kind: "setcmd", Target: lc.real.next, Attr: "aliases", Vals: []string{"1", hx("lc9")}}}
+		useCmd, useOpt := r.Intn(3) != 0, r.Intn(4) != 0
+		// the earlier call: the path itself (with or without success: a command may be required below it)
+		cs := lc.cs
+		cs.Ops = []Op{{Kind: "parse", Args: append([]string{}, lc.argv...)}}
+		if r.Intn(2) == 0 {
+			cs.Ops = append(cs.Ops, Op{Kind: "complete", Args: append(append([]string{}, lc.argv...), "")})
+		}
+		if useOpt {
+			cs.Ops = append(cs.Ops, addOpt)
+		}
+		if useCmd || len(end.Commands()) > 0 && !end.SubcommandsOptional {
+			useCmd = true
+			cs.Ops = append(cs.Ops, addCmd, setAlias)
+		}
+		if !useCmd && !useOpt {
+			continue
+		}
+		argv := append([]string{}, lc.argv...)
+		spelling := []string{"--late-flag", "-9"}[r.Intn(2)]
+		word := []string{"latecmd", "lc9"}[r.Intn(2)]
+		optAfterCmd := r.Intn(2) == 0
+		if useOpt && !(useCmd && optAfterCmd) {
+			argv = append(argv, spelling)
+		}
+		if useCmd {
+			argv = append(argv, word)
+			if r.Intn(2) == 0 {
+				argv = append(argv, "--late-inner")
+			}
+		}
+		if useOpt && useCmd && optAfterCmd {
+			argv = append(argv, spelling)
+		}
+		cs.Ops = append(cs.Ops, Op{Kind: "parse", Args: argv})
+		cs.Description = describeOps(cs)
+		wantAct := lc.wantChain()
+		if useCmd {
+			wantAct += fmt.Sprintf(" %d", lc.real.next)
+		}
+		c.RunCases([]*Case{cs}, func(cr *CaseResult) {
+			c.classifyCase(cr)
+			if cr.Real == nil || cr.Real.dead {
+				return
+			}
+			var obs parseObs
+			for _, o := range parseBlocks(cr) {
+				obs = o
+			}
+			c.Class(fmt.Sprintf("c08/late: depth=%d option-added-at-level=%d new-option=%v new-command=%v", len(lc.chain)-1, k, useOpt, useCmd))
+			in := map[string]interface{}{"case": cs.Description, "earlier_call": lc.argv, "judged_call": argv,
+				"option_added_to_command": holder.Name, "command_added_below": end.Name}
+			got := fmt.Sprintf("%s %s type %d %q remaining %q, %s", obs.panic, obs.errKind, obs.errType, obs.errMsg, obs.ret, obs.act)
+			ok := obs.panic == "" && obs.errKind == "ok" && len(obs.ret) == 0 && obs.act == wantAct
+			if ok && useOpt {
+				fr, has := cr.Real.fields["LateFlag"]
+				ok = has && fr.val.Bool()
+				got += fmt.Sprintf(", late-flag=%v", has && fr.val.Bool())
+			}
+			if !ok {
+				in["case_file"] = c.saveCase(cr)
+			}
+			c.Check("declarations-added-after-an-earlier-call-are-in-force", ok, "C08:late", in, got,
+				"success, nothing remaining, "+wantAct+", the late option set if it occurs")
 		})
 	}
 }
